@@ -94,6 +94,45 @@ def _dump_any(x):
     return repr(x)
 
 
+def _canon(val):
+    if isinstance(val, (set, frozenset)):
+        return sorted(repr(x) for x in val)
+    if isinstance(val, dict):
+        return sorted((repr(k), repr(v)) for k, v in val.items())
+    return [repr(x) for x in val]
+
+
+def module_state():
+    """every mutable container bound at module level (or as a class attribute) in a pyrefact module, in canonical form"""
+    import collections
+
+    out = {}
+    for name, mod in list(sys.modules.items()):
+        if mod is None or not (name == "pyrefact" or name.startswith("pyrefact.")):
+            continue
+        for attr, val in list(vars(mod).items()):
+            if attr.startswith("__") or isinstance(val, _Recorder):
+                continue
+            if isinstance(val, (dict, set, list, bytearray, collections.deque)):
+                out[f"{name}.{attr}"] = _canon(val)
+            elif isinstance(val, type) and getattr(val, "__module__", "") == name:
+                for a2, v2 in list(vars(val).items()):
+                    if not a2.startswith("__") and isinstance(v2, (dict, set, list)):
+                        out[f"{name}.{attr}.{a2}"] = _canon(v2)
+    return out
+
+
+def state_diff(before, after):
+    out = []
+    for k in sorted(set(before) | set(after)):
+        b, a = before.get(k), after.get(k)
+        if b != a:
+            added = [x for x in (a or []) if x not in (b or [])][:8]
+            removed = [x for x in (b or []) if x not in (a or [])][:8]
+            out.append({"name": k, "added": added, "removed": removed})
+    return out
+
+
 def task_purity(args):
     """apply each rule to src; after each call every object handed out by pyrefact's caches (parse trees, compiled
     templates, traced origins, line tables) must still equal its dump at creation; a second call must return the same text"""
@@ -113,12 +152,18 @@ def task_purity(args):
         else:
             recs[name] = fn
     out = []
+    state_changes = []
+    state = module_state()
     for rule_name in rules:
         rule = oracles.resolve_rule(rule_name)
         for rec in recs.values():
             rec.seen.clear()
         recs["parse"].cache_clear()
         st1, o1 = oracles._guarded(lambda: rule(src), 30)
+        after = module_state()
+        if after != state:
+            state_changes.append((rule_name, state_diff(state, after)))
+            state = after
         if st1 != "ok":
             continue
         bad = [(n, c) for n, rec in recs.items() for c in rec.changed()]
@@ -128,11 +173,12 @@ def task_purity(args):
         st2, o2 = oracles._guarded(lambda: rule(src), 30)
         if st2 == "ok" and o1 != o2:
             out.append((rule_name, "second call on the same input returns a different text"))
-    return {"status": "ok", "bad": out}
+    return {"status": "ok", "bad": out, "state": state_changes}
 
 
 def purity_suite(ctx):
     s = Suite("purity", kind="oracle")
+    st = Suite("module-state")
     rules = sweep.rule_names()
     items = sweep.pick(sweep.generated_corpus(), ctx, 60) + sweep.targeted() + [(oracles.sha(x), x, "repo-example") for x in oracles.repo_examples()]
     results = oracles.pmap(task_purity, [(src, rules) for (_sha, src, _fam) in items])
@@ -146,10 +192,19 @@ def purity_suite(ctx):
                 continue
             s.disagreements.append({"sha": sha, "src": src, "rule": rule, "history": [f"{rule}(src)", f"{rule}(src)"],
                                     "what": f"{rule}: {why}"})
+        st.cases += 1
+        for (rule, diff) in res.get("state", []):
+            st.nt([sha, rule])
+            if len(st.disagreements) < 40:
+                st.disagreements.append({"sha": sha, "src": src, "rule": rule, "state": diff,
+                                         "what": f"{rule} changed module-level state of pyrefact ({', '.join(d['name'] for d in diff[:3])}): the model's rules leave shared state alone (hypothesis RulePure)"})
+    st.note = ("same calls: every mutable container bound at module level or as a class attribute in a pyrefact module (dict / set / list / deque) is snapshot before and after each rule call; "
+               "the model of C05 (Cache.lean, hypothesis RulePure) has no shared state besides the caches, so any change breaks the correspondence and starts the search for a history on which an output differs; "
+               "non-trivial = a call that changed something")
     s.note = (f"every public rule ({len(rules)}) on the targeted corpus, a slice of the generated one and ALL repository examples (the unit-test inputs of every rule): "
               "every object handed out by the parse / compile_template / trace_origin / line-table caches during the call still equals its dump at creation "
               "(recording wrappers inside the worker process; nothing in /repo is instrumented), and a second call returns the same text; non-trivial = every program")
-    return s
+    return [s, st]
 
 
 FRESH = r"""
@@ -254,7 +309,49 @@ def fresh_results(pairs):
 
 def suites(ctx):
     common.import_pyrefact()
-    return [lru_suite(ctx), purity_suite(ctx), history_suite(ctx)]
+    return [lru_suite(ctx)] + purity_suite(ctx) + [history_suite(ctx)]
+
+
+def task_after(args):
+    """apply rule(src) (the call that changed shared state), then format every probe in that process"""
+    src, rule_name, probes = args
+    import pyrefact
+
+    oracles._guarded(lambda: oracles.resolve_rule(rule_name)(src), 60)
+    return {"status": "ok", "out": [oracles._guarded(lambda p=p: pyrefact.format_code(p), 60) for p in probes]}
+
+
+def search(ctx, breaks):
+    """a rule changed module-level state: look for an input whose formatting after that call differs from a fresh process"""
+    common.import_pyrefact()
+    import re
+
+    found = []
+    for b in breaks:
+        if b.get("suite") != "module-state":
+            continue
+        for d in b.get("inputs", [])[:6]:
+            probes = [src for (_sha, src, _f) in sweep.pick(sweep.generated_corpus2(), ctx, 24)] + [d["src"]]
+            # strings that entered a module-level collection, used as identifiers in small programs
+            for ch in d.get("state", []):
+                for item in ch.get("added", []) + ch.get("removed", []):
+                    for name in re.findall(r"[A-Za-z_][A-Za-z_0-9]*", str(item))[:4]:
+                        probes.append(f"def {name}(*a):\n    print('called', a)\n\n\n{name}(1)\n{name}('a', 'b')\nprint('end')\n")
+                        probes.append(f"import os\nfrom os.path import join as {name}\n\n\ndef work(x):\n    {name}(x)\n    return x\n\n\nprint(work('a'))\n")
+            probes = list(dict.fromkeys(probes))
+            res = oracles.pmap(task_after, [(d["src"], d["rule"], probes)], isolate=True)[0]
+            fresh = fresh_results([(p, {}) for p in probes])
+            for p, got, fr in zip(probes, res.get("out", []), fresh):
+                if fr is None or fr.startswith("EXC ") or got[0] != "ok":
+                    continue
+                if got[1] != fr:
+                    found.append({"src": p, "history": [f"{d['rule']}({d['src']!r})", "format_code(src)"], "after_history": got[1], "fresh": fr, "state": d.get("state"),
+                                  "rule_history": [d["rule"], d["src"]],
+                                  "what": f"format_code(x) after {d['rule']} on another input differs from a fresh process ({d['rule']} changed {', '.join(c['name'] for c in d.get('state', [])[:2])})"})
+                    break
+            if found:
+                break
+    return found
 
 
 def match_known(d, known):
@@ -267,6 +364,11 @@ def match_known(d, known):
 
 def replay(ctx, inp):
     common.import_pyrefact()
+    if "rule_history" in inp:
+        res = oracles.pmap(task_after, [(inp["rule_history"][1], inp["rule_history"][0], [inp["src"]])], isolate=True)[0]
+        fr = fresh_results([(inp["src"], {})])[0]
+        print(res["out"][0][0], res["out"][0][1] == fr)
+        return res["out"][0][1] != fr
     if "rule" in inp:
         res = task_purity((inp["src"], [inp["rule"]]))
         print(res)
